@@ -36,7 +36,7 @@ var rdDebug = os.Getenv("VERIF_RD_DEBUG")
 
 const (
 	rdStallAfter = 1500 * time.Millisecond // no message for this long: out=stall
-	rdQuiet      = 100 * time.Millisecond  // broker sees nothing for this long: the reader goroutine is parked
+	rdQuiet      = 200 * time.Millisecond  // broker sees nothing for this long: the reader goroutine is parked
 	rdSettleMax  = 1200 * time.Millisecond
 	rdHwmSleep   = 5 * time.Millisecond
 	rdSpinSleep  = 10 * time.Millisecond // pacing of the 4th, 5th.. fetch in a row of one offset on one connection
@@ -502,6 +502,16 @@ func runReader(sc *rdScenario) string {
 			cl = fmt.Sprintf("ok-but-setoffset-after-close:%v", err)
 		}
 		ccancel()
+		// every connection the fetch loop opened is over: each way out of readLoop closes the connection (directly, or
+		// Batch.Close has), and Close ends the loop.  (The broker notices a closed connection with its next read.)
+		opened, over := rb.b.Conns()
+		for t0 := time.Now(); over != opened && time.Since(t0) < time.Second; {
+			time.Sleep(2 * time.Millisecond)
+			opened, over = rb.b.Conns()
+		}
+		if cl == "ok" && over != opened {
+			cl = fmt.Sprintf("ok-but-%d-of-%d-connections-left-open", opened-over, opened)
+		}
 	case <-time.After(3 * time.Second):
 		cl = "hung"
 	}
